@@ -239,6 +239,42 @@ func (e *Engine) intrinsic(fn *ssa.Function, name string, args []Value, st *Stat
 				return strConst(strings.ToUpper(o))
 			})), true
 		}
+		if sa, ok := args[0].(*Str); ok && name == "strings.TrimSpace" && !sa.isC && sa.n.op == OpConst {
+			// concrete length, symbolic bytes: ASCII only (a byte >= 0x80 that is feasible is refused,
+			// U+0085 / U+00A0 and friends are white space to Go); if neither end can be white space the
+			// string is returned as it is, otherwise the trimmed view has symbolic bounds
+			k := int(sa.n.val)
+			isSp := func(b *Term) *Term {
+				return Or(Eq(b, BV(' ', 8)), And(Ule(BV(9, 8), b), Ule(b, BV(13, 8))))
+			}
+			feasible := func(c *Term) bool {
+				if c == FF {
+					return false
+				}
+				ns := st.Fork()
+				ns.Assume(c)
+				return e.solver.Check(ns.pc) != ResUnsat
+			}
+			for i := 0; i < k; i++ {
+				if feasible(Ule(BV(0x80, 8), sa.b[i])) {
+					e.unsupported("strings.TrimSpace on a symbolic string that may hold non-ASCII bytes")
+				}
+			}
+			if k == 0 || (!feasible(isSp(sa.b[0])) && !feasible(isSp(sa.b[k-1]))) {
+				return one(st, sa), true
+			}
+			// lo = number of leading white-space bytes; hi = k - trailing ones (lo when all are)
+			lo := BV(uint64(k), 64)
+			for i := k - 1; i >= 0; i-- {
+				lo = Ite(isSp(sa.b[i]), lo, BV(uint64(i), 64))
+			}
+			hi := BV(0, 64)
+			for i := 0; i < k; i++ {
+				hi = Ite(isSp(sa.b[i]), hi, BV(uint64(i+1), 64))
+			}
+			hi = Ite(Ult(hi, lo), lo, hi)
+			return one(st, sa.Slice(lo, hi)), true
+		}
 		e.unsupported("%s on symbolic string", name)
 	case "strings.TrimPrefix", "strings.TrimSuffix":
 		a, ok1 := cstr(args[0])
@@ -256,6 +292,25 @@ func (e *Engine) intrinsic(fn *ssa.Function, name string, args []Value, st *Stat
 				}
 				return strConst(strings.TrimSuffix(o, b))
 			})), true
+		}
+		if sa, ok := args[0].(*Str); ok && ok2 && !sa.isC && sa.n.op == OpConst {
+			// concrete length, symbolic bytes, constant affix
+			k, m := int(sa.n.val), len(b)
+			if k < m {
+				return one(st, sa), true
+			}
+			match := TT
+			for i := 0; i < m; i++ {
+				at := i
+				if name == "strings.TrimSuffix" {
+					at = k - m + i
+				}
+				match = And(match, Eq(sa.b[at], BV(uint64(b[i]), 8)))
+			}
+			if name == "strings.TrimPrefix" {
+				return one(st, sa.Slice(Ite(match, BV(uint64(m), 64), BV(0, 64)), BV(uint64(k), 64))), true
+			}
+			return one(st, sa.Slice(BV(0, 64), Ite(match, BV(uint64(k-m), 64), BV(uint64(k), 64)))), true
 		}
 		e.unsupported("%s on symbolic string", name)
 	case "strings.ReplaceAll":
